@@ -775,7 +775,7 @@ static void setup()
 		} while(m <= 5 && n <= 5 && k <= 5);
 		algebra_case(rng, m, n, k);
 	});
-	add_generator("object_histories", ctx().count(6000, 1800000), [](Rng& rng, uint64_t i) { la::matrix_history_case(rng, i, false); });
+	add_generator("object_histories", ctx().count(6000, 1800000), [](Rng& rng, uint64_t i) { la::matrix_history_case(rng, i, false); la::vector_history_case(rng); });
 	build_catalogue();
 	add_generator("unequal_shapes_catalogue", cat.size(), [](Rng&, uint64_t i) { run_request(cat[i]); });
 	add_generator("unequal_shapes_random", ctx().count(1600, 60000), random_request);
